@@ -129,6 +129,9 @@ func TestVerifC01(t *testing.T) {
 		{"actor", "name"}, {"actor", "preferredUsername"}, {"actor", "summary:text/html"}, {"actor", "summary:text/markdown"}, {"actor", "published"}, {"actor", "type"}, {"actor", "outbox"}, {"actor", "icon.url"},
 		{"activity", "actor.name"}, {"activity", "object.name"}, {"activity", "published"}, {"activity", "actor"}, {"activity", "object"},
 		{"collection-item", "name"},
+		{"post", "ctx:pre"}, {"post", "ctx:code"}, {"post", "ctx:pre>code"}, {"post", "ctx:pre>b"}, {"post", "ctx:blockquote"}, {"post", "ctx:ul>li"}, {"post", "ctx:h2"}, {"post", "ctx:a"},
+		{"post", "ctx:table>tr>td"}, {"post", "ctx:li"}, {"post", "ctx:div>pre>span"}, {"post", "ctx:mark"}, {"post", "ctx:s"}, {"post", "ctx:blockquote>pre"}, {"post", "ctx:textarea"}, {"post", "ctx:title"},
+		{"post", "mdctx:fence"}, {"post", "mdctx:quote"}, {"post", "mdctx:list"}, {"post", "mdctx:heading"}, {"post", "mdctx:table"}, {"post", "mdctx:html-block"},
 	}
 	build := func(f fieldSpec, p string) (map[string]any, string) {
 		post := map[string]any{"type": "Note", "name": "title", "content": "<p>body</p>"}
@@ -141,6 +144,20 @@ func TestVerifC01(t *testing.T) {
 				m["mediaType"] = mt
 			}
 			markup = mt
+		}
+		if strings.HasPrefix(f.field, "ctx:") {
+			tags := strings.Split(strings.TrimPrefix(f.field, "ctx:"), ">")
+			open, close := "", ""
+			for _, t := range tags {
+				attr := ""
+				if t == "a" {
+					attr = ` href="https://x.example/"`
+				}
+				open += "<" + t + attr + ">"
+				close = "</" + t + ">" + close
+			}
+			post["content"] = "lead " + open + "in " + p + " side\n  " + p + close + " tail"
+			markup = "text/html"
 		}
 		switch f.field {
 		case "name":
@@ -199,6 +216,18 @@ func TestVerifC01(t *testing.T) {
 			setBody(post, "content", "text/markdown", "`"+p+"`\n\n```\n"+p+"\n```\n\n    "+p+"\n")
 		case "gem:link":
 			setBody(post, "content", "text/gemini", "=> "+p+"\n=> https://x.example/ "+p+"\n```\n"+p+"\n```\n* "+p+"\n> "+p)
+		case "mdctx:fence":
+			setBody(post, "content", "text/markdown", "~~~\n"+p+"\n~~~\n")
+		case "mdctx:quote":
+			setBody(post, "content", "text/markdown", "> "+p+"\n> > "+p+"\n")
+		case "mdctx:list":
+			setBody(post, "content", "text/markdown", "- "+p+"\n  - "+p+"\n1. "+p+"\n")
+		case "mdctx:heading":
+			setBody(post, "content", "text/markdown", "# "+p+"\n\n"+p+"\n===\n")
+		case "mdctx:table":
+			setBody(post, "content", "text/markdown", "| "+p+" | b |\n|---|---|\n| c | "+p+" |\n")
+		case "mdctx:html-block":
+			setBody(post, "content", "text/markdown", "<pre>"+p+"</pre>\n\n<code>"+p+"</code> <span title=\""+p+"\">"+p+"</span>\n")
 		case "preferredUsername":
 			actor["preferredUsername"] = p
 		case "outbox":
